@@ -60,7 +60,7 @@ func zzCRDRef(name string) xpv1.TypedReference {
 // requests. A role another owner controls is left untouched.
 //
 //gosym:harness
-//gosym:cover rejected granted family-same-org family-other-org foreign-role
+//gosym:cover rejected granted family-same-org family-other-org foreign-role allow-list-missing
 func HarnessC18Reconcile() {
 	s := kube.New()
 	s.Register(&v1.ProviderRevision{}, &v1.ProviderRevisionList{}, "pkg.crossplane.io", "ProviderRevision")
@@ -105,7 +105,11 @@ func HarnessC18Reconcile() {
 	allowGroup, allowRes := zz.Str("allow.group"), zz.Str("allow.resource")
 	allow := &rbacv1.ClusterRole{ObjectMeta: metav1.ObjectMeta{Name: "allowed"}}
 	allow.Rules = []rbacv1.PolicyRule{{APIGroups: []string{allowGroup}, Resources: []string{allowRes}, Verbs: []string{"*"}}}
-	s.Put(allow)
+	// the configured allow-list role may be missing (deleted, not yet created)
+	allowExists := zz.Bool("allow.role.exists")
+	if allowExists {
+		s.Put(allow)
+	}
 
 	// the system role may pre-exist, controlled by someone else
 	foreign := zz.Str("foreign.uid")
@@ -133,7 +137,10 @@ func HarnessC18Reconcile() {
 		WithOrgDiffer(OrgDiffer{}))
 	_, err := r.Reconcile(context.Background(), reconcile.Request{NamespacedName: types.NamespacedName{Name: zzPRName}})
 
-	covered := !hasReq || zz.And(zz.Or(allowGroup == reqGroup, allowGroup == "*"), zz.Or(allowRes == reqRes, allowRes == "*"))
+	covered := !hasReq || zz.And(allowExists, zz.And(zz.Or(allowGroup == reqGroup, allowGroup == "*"), zz.Or(allowRes == reqRes, allowRes == "*")))
+	if !allowExists && hasReq {
+		zz.Cover("allow-list-missing")
+	}
 	roleWrites := 0
 	for _, w := range s.Writes(false) {
 		if w.Kind == "ClusterRole" {
@@ -143,6 +150,11 @@ func HarnessC18Reconcile() {
 	if !covered {
 		zz.Cover("rejected")
 		zz.Assert("uncovered-request-means-no-role-at-all", roleWrites == 0)
+		return
+	}
+	if !allowExists {
+		// nothing is requested, yet the validator cannot read its allow list:
+		// whether that is an error is not the property's business
 		return
 	}
 	if preRole == 2 {
